@@ -90,10 +90,10 @@ theorem Tr.upd_same {tr n ss cs u nr sp al} (h : Tr tr n ss cs u nr sp al) (k : 
     · rfl
 
 /-- `Connector::startCycleInLoop()`; `r0` is the queue before (with or without the functor itself) -/
-theorem startCycle_mid (c : C) (r r0 : List Task) (ph : Bool) (hr0 : r0 = r ∨ r0 = Task.startCycle :: r) (hi : Mid c r0 ph)
+theorem startCycleCore_mid (c : C) (r r0 : List Task) (ph : Bool) (hr0 : r0 = r ∨ r0 = Task.startCycle :: r) (hi : Mid c r0 ph)
     (hch : c.chan = none) (hcn : c.connection = none)
     (hna : ¬ attempting c.cstate c.timers) (hns : .startCycle ∉ r ++ c.pending)
-    (hal : c.cConnect = true → c.clientAlive = true) : Mid (startCycle c) r ph := by
+    (hal : c.cConnect = true → c.clientAlive = true) : Mid (startCycleCore c) r ph := by
   have hon : c.chanOn = false := by
     cases h : c.chanOn
     · rfl
@@ -108,7 +108,7 @@ theorem startCycle_mid (c : C) (r r0 : List Task) (ph : Bool) (hr0 : r0 = r ∨ 
   have hst' : (if cycleClearsState c.cstate then States.kDisconnected else c.cstate) = .kDisconnected := by
     unfold cycleClearsState
     cases h : c.cstate <;> simp_all
-  unfold startCycle
+  unfold startCycleCore
   rw [hst']
   simp only [cycleResetsDelay, if_true]
   apply startInLoop_mid
@@ -117,6 +117,41 @@ theorem startCycle_mid (c : C) (r r0 : List Task) (ph : Bool) (hr0 : r0 = r ∨ 
     all_goals constructor
     all_goals mid_auto2
   · exact ⟨rfl, hch, hcn, hnt, hns, rfl, hal⟩
+
+/-- T1: `Connector::startCycleInLoop` cancels the back-off timer of the previous cycle before `startInLoop()` (the F33
+fix; generated, a different extraction breaks the proofs here) -/
+theorem gen_cycleStartCancels : cycleStartCancelsRetryTimer = true := rfl
+
+theorem cancelIf_frame (b : Bool) (c : C) (cn : Option Nat) (q : List Task) :
+    cancelIf b { c with connection := cn, pending := q } = { cancelIf b c with connection := cn, pending := q } := by
+  unfold cancelIf cancelRetry; split <;> rfl
+theorem cancelIf_conns (b : Bool) (c : C) : (cancelIf b c).conns = c.conns := by
+  unfold cancelIf cancelRetry; split <;> rfl
+theorem cancelIf_pending (b : Bool) (c : C) : (cancelIf b c).pending = c.pending := by
+  unfold cancelIf cancelRetry; split <;> rfl
+theorem cancelIf_hooksUp (b : Bool) (c : C) : (cancelIf b c).hooksUp = c.hooksUp := by
+  unfold cancelIf cancelRetry; split <;> rfl
+
+/-- `Connector::startCycleInLoop()`: a back-off timer left pending by the previous cycle (`stop()` during the wait) does
+not matter - it is cancelled first; only an attempt in progress is excluded -/
+theorem startCycle_mid' (c : C) (r r0 : List Task) (ph : Bool) (hr0 : r0 = r ∨ r0 = Task.startCycle :: r) (hi : Mid c r0 ph)
+    (hch : c.chan = none) (hcn : c.connection = none)
+    (hnc : c.cstate ≠ .kConnecting) (hns : .startCycle ∉ r ++ c.pending)
+    (hal : c.cConnect = true → c.clientAlive = true) : Mid (startCycle c) r ph := by
+  unfold startCycle
+  rw [gen_cycleStartCancels]
+  unfold cancelIf
+  rw [if_pos rfl]
+  refine startCycleCore_mid (cancelRetry c) r r0 ph hr0 (cancelRetry_mid c r0 ph hi) hch hcn ?_ hns hal
+  rintro (h | h)
+  · exact hnc h
+  · have := cancelRetry_none c; omega
+
+theorem startCycle_mid (c : C) (r r0 : List Task) (ph : Bool) (hr0 : r0 = r ∨ r0 = Task.startCycle :: r) (hi : Mid c r0 ph)
+    (hch : c.chan = none) (hcn : c.connection = none)
+    (hna : ¬ attempting c.cstate c.timers) (hns : .startCycle ∉ r ++ c.pending)
+    (hal : c.cConnect = true → c.clientAlive = true) : Mid (startCycle c) r ph :=
+  startCycle_mid' c r r0 ph hr0 hi hch hcn (fun h => hna (.inl h)) hns hal
 
 theorem holds_shutdown (k j : Nat) : Task.holds (.shutdownInLoop k) j = false := by
   simp [Task.holds, gen_shutdown_weak]
@@ -317,15 +352,21 @@ theorem startInLoop_frame (c : C) (cn : Option Nat) (q : List Task) :
     · exact connect_frame _ _ _
     · rfl
 
-theorem startCycle_frame (c : C) (cn : Option Nat) (q : List Task) :
-    startCycle { c with connection := cn, pending := q } = { startCycle c with connection := cn, pending := q } := by
-  unfold startCycle
+theorem startCycleCore_frame (c : C) (cn : Option Nat) (q : List Task) :
+    startCycleCore { c with connection := cn, pending := q } = { startCycleCore c with connection := cn, pending := q } := by
+  unfold startCycleCore
   exact startInLoop_frame ({ c with cstate := if cycleClearsState c.cstate then .kDisconnected else c.cstate,
                                     delay := if cycleResetsDelay then kInitRetryDelayMs else c.delay,
                                     nretry := 0, ups := 0, trace := c.trace ++ [.ghost .cycle] } : C) cn q
 
+theorem startCycle_frame (c : C) (cn : Option Nat) (q : List Task) :
+    startCycle { c with connection := cn, pending := q } = { startCycle c with connection := cn, pending := q } := by
+  unfold startCycle
+  rw [cancelIf_frame]
+  exact startCycleCore_frame _ cn q
+
 theorem startCycle_conns (c : C) : (startCycle c).conns = c.conns := by
-  unfold startCycle; rw [startInLoop_conns]
+  unfold startCycle startCycleCore; rw [startInLoop_conns]; exact cancelIf_conns _ c
 
 theorem retry_pending (c : C) (k : Nat) : (retry c k).pending = c.pending := by
   unfold retry closeSock; simp only; repeat' split
@@ -347,7 +388,7 @@ theorem startInLoop_pending (c : C) : (startInLoop c).pending = c.pending := by
   repeat' split
   all_goals first | rfl | exact connect_pending _
 theorem startCycle_pending (c : C) : (startCycle c).pending = c.pending := by
-  unfold startCycle; rw [startInLoop_pending]
+  unfold startCycle startCycleCore; rw [startInLoop_pending]; exact cancelIf_pending _ c
 
 
 /-! ### DOWN: `TcpConnection::handleClose` with the user's callback before `TcpClient::removeConnection` -/
@@ -426,9 +467,11 @@ theorem startInLoop_keeps (c : C) : Keeps c (startInLoop c) := by
   unfold startInLoop die
   repeat' split
   all_goals first | exact ⟨rfl, rfl, rfl, rfl, rfl⟩ | exact connect_keeps _
+theorem cancelIf_keeps (b : Bool) (c : C) : Keeps c (cancelIf b c) := by
+  unfold cancelIf cancelRetry; split <;> exact ⟨rfl, rfl, rfl, rfl, rfl⟩
 theorem startCycle_keeps (c : C) : Keeps c (startCycle c) := by
-  unfold startCycle
-  exact Keeps.trans ⟨rfl, rfl, rfl, rfl, rfl⟩ (startInLoop_keeps _)
+  unfold startCycle startCycleCore
+  exact Keeps.trans (cancelIf_keeps _ c) (Keeps.trans ⟨rfl, rfl, rfl, rfl, rfl⟩ (startInLoop_keeps _))
 theorem startCycle_connection (c : C) : (startCycle c).connection = c.connection := by
   have h := startCycle_frame c c.connection c.pending
   have e : ({ c with connection := c.connection, pending := c.pending } : C) = c := rfl
